@@ -37,6 +37,21 @@ theorem strip_tif_encode (L : Layout) (rs : List Bytes) (hL : L.Valid) (hle : L.
     stripTif (encode L rs) = .ok (encode L.noTif rs, numPRs L rs + 2, (encode L.noTif rs).length) :=
   stripTif_encode L hL hle rs hne hr hsz
 
+/-- **writer_layout_open.** The bytes in the stream BEFORE `close()` (a legal state of a file being written, and how
+the project's tests build in-memory files) are the encoding without the two TIF end-of-file markers. -/
+theorem writer_layout_open (L : Layout) (rs : List Bytes) (hL : L.Valid) (hbe : L.tif ≠ .be)
+    (hb : ∀ r ∈ rs, ∀ x ∈ r, x < 256) (hsz : L.tif = .le → fileSize L rs < 4294967296) :
+    writeFileOpen (L.tif != .off) L.prMax L.hasRec L.fileNum L.hasChk rs
+      = .ok (encodeN L rs 0, (List.range rs.length).map (tellOf L rs)) :=
+  writeFileOpen_spec L rs hL hbe hb hsz
+
+/-- **strip_tif_open.** `strip_tif` of a TIF-marked file that ends with `k` = 0 (not closed), 1 or 2 (closed)
+end-of-file markers is the unmarked file of the same records; it reports one marker per physical record plus `k`. -/
+theorem strip_tif_open (L : Layout) (rs : List Bytes) (k : Nat) (hL : L.Valid) (hle : L.tif = .le) (hk : k ≤ 2)
+    (hne : rs ≠ []) (hr : ∀ r ∈ rs, r ≠ []) (hsz : (encodeN L rs k).length < 4294967296) :
+    stripTif (encodeN L rs k) = .ok (encode L.noTif rs, numPRs L rs + k, (encode L.noTif rs).length) :=
+  stripTif_encodeN L hL hle rs k hk hne hr hsz
+
 /-- **strip_tif (write tif rs) = write noTif rs**, on the writer model: stripping what the writer produced with TIF
 markers gives byte for byte what the writer produces without them. -/
 theorem strip_tif_write (L : Layout) (rs : List Bytes) (hL : L.Valid) (hle : L.tif = .le)
